@@ -345,7 +345,7 @@ class C06(core.Prop):
             # input unchanged unless in_place
             if not o['in_place']:
                 same = list(df.columns) == list(orig.columns) and all(str(a) == str(b) for a, b in zip(df.dtypes, orig.dtypes)) \
-                    and df.equals(orig)
+                    and df.equals(orig) and df.index.equals(orig.index) and list(df.index.names) == list(orig.index.names)
                 if not same:
                     fail('input-changed', 'input frame changed: columns %r -> %r' % (list(orig.columns), list(df.columns)))
             if v.failures == 0:
